@@ -30,6 +30,11 @@ def count_ops(t):
     return 1 + count_ops(t[2]) + count_ops(t[3])
 
 
+# accepted constant names that look like something else: a directive / mnemonic / register in another letter case, hex digits only
+HOSTILE = ['ERROR', 'Error', 'STRING', 'String', 'BYTES', 'Align', 'PACK', 'Db', 'LONGS', 'ADD', 'Li', 'NOP', 'Zero', 'RA', 'SP', 'X1', 'T0', 'a', 'x',
+           'fee', 'dec', 'cafe', 'ADC', 'e', 'b0', 'xa', 'HI', 'LO', 'J', 'Ret', 'errors', 'string_', 'Offset', 'POSITION']
+
+
 def value_case(asm, acc, seed, idx):
     rng = random.Random('c11-v-%d-%d' % (seed, idx))
     env = {}
@@ -39,6 +44,9 @@ def value_case(asm, acc, seed, idx):
     nontriv = False
     for k in range(nconst):
         name = rng.choice(['K', 'FOO_', 'base', 'GPIO_BASE_ADDR_', 'x_']) + str(k)
+        if rng.random() < 0.25:
+            name = rng.choice(HOSTILE)
+            acc['ctr']['constants_with_lookalike_names'] += 1
         if env and rng.random() < 0.25:
             name = rng.choice(list(env))          # a later definition of the same name (e.g. OFF = OFF + 4): the last one is the value
         for _ in range(20):
